@@ -259,3 +259,15 @@ def c12_units(tier, seed):
 PROPS["C12"] = dict(units=c12_units, bounds_text="start offsets and direction: every birth second of each listed year, both genders, both schools; chain (field-level): birth year from the listed set, arbitrary month/hour pillars, direction, start offset 0..12 years and 0..11 months, every great-fortune index 0..9 with all its annual, minor and monthly entries",
                     outside="years not listed; chain states with non-zero start day/hour offsets (they influence the chain only through the start year, which is covered as Y+sy or Y+sy+1)",
                     unit_timeout_ms={"quick": 400000, "thorough": 1500000})
+
+
+def c16_units(tier, seed):
+    ys = year_set(tier, seed)
+    ys = [y for y in ys if y >= 2]
+    # structural years for the day star: summer-solstice day with jiazi index 29 / 30 (anchor choice), 23h solstices
+    us = per_year("calendar.VH_C16_Stars", "C16a", sorted(set(ys) | {1928, 1951, 2054, 1864, 2224}))
+    us.append(dict(id="C16b", harness="calendar.VH_C16_Names", params={}))
+    return us
+
+
+PROPS["C16"] = dict(units=c16_units, bounds_text="every second of each listed civil year, three year/month conventions, both hour-star routes", outside="years not listed")
